@@ -49,7 +49,8 @@ def catalogue():
     for target in (0, 1):
         ops += [("post", target, None, False), ("post", target, "120", False), ("post", target, "zz", False), ("post", target, "120", True),
                 ("put", target, 1), ("del", target)]
-    ops += [("post", 9, None, False), ("wait",), ("wait2",)]
+    ops += [("post", 9, None, False), ("wait",), ("wait2",), ("postx", 0, "lt=86400", "rt=oops"), ("postx", 0, "base=coap://changed.example", "count=3"),
+            ("postx", 0, "lt=200", "ep=z"), ("postx", 0, "base=coap://b2.example", None)]
     return ops
 
 
@@ -185,7 +186,7 @@ def mk_history(first, depth, lo=0, hi=None, prefix=()):
                                 targets.append(key)
                         else:
                             assert resp.code.class_ == 4
-                    elif kind in ("post", "put", "del"):
+                    elif kind in ("post", "postx", "put", "del"):
                         ti = op[1]
                         key = targets[ti] if ti < len(targets) else None
                         cur = live().get(key) if key is not None else None
@@ -205,6 +206,21 @@ def mk_history(first, depth, lo=0, hi=None, prefix=()):
                                 assert int(resp.code) == 68
                                 if lt:
                                     cur["lt"] = int(lt)
+                                cur["expiry"] = loop.time() + cur["lt"] + GRACE
+                            else:
+                                assert resp.code.class_ == 4
+                        elif kind == "postx":
+                            _, _, setting, bad = op
+                            m = Message(code=POST, uri_path=path, uri_query=[setting] + ([bad] if bad else []))
+                            resp = serve(loop, site, m)
+                            valid = cur is not None and bad is None
+                            if valid:
+                                assert int(resp.code) == 68
+                                k_, v_ = setting.split("=", 1)
+                                if k_ == "lt":
+                                    cur["lt"] = int(v_)
+                                else:
+                                    cur["base"] = v_
                                 cur["expiry"] = loop.time() + cur["lt"] + GRACE
                             else:
                                 assert resp.code.class_ == 4
